@@ -348,6 +348,8 @@ class Check:
         lines = []
         nviol = 0
         seen_known = set()
+        # violations with a concrete failing input are reported first (the first VIOLATION line is the one to replay)
+        self.violations.sort(key=lambda v: 0 if v["found"] else 1)
         for i, v in enumerate(self.violations):
             matched = None
             for k in known:
